@@ -84,6 +84,17 @@ func strConstsOf(w *World, v ssa.Value) map[string]bool {
 			if x.Value != nil && x.Value.Kind() == constant.String {
 				out[constant.StringVal(x.Value)] = true
 			}
+		case *ssa.Parameter:
+			// inside a helper analysed in line: the argument of the call at hand
+			if a, ok := w.paramCtx[x]; ok {
+				rec(a, d+1)
+			} else if c := w.uniqueCallSite(x.Parent()); c != nil {
+				for i, p := range x.Parent().Params {
+					if p == x && i < len(c.Call.Args) {
+						rec(c.Call.Args[i], d+1)
+					}
+				}
+			}
 		case *ssa.BinOp:
 			rec(x.X, d+1)
 			rec(x.Y, d+1)
